@@ -15,7 +15,7 @@ SPEC = {
 }
 
 TEXT = {
-    "technique": "rapid differential against an independent ntor (math/big X25519 ladder, hand-written HMAC transcript and HKDF) + metamorphic transcript-binding relation",
+    "technique": "rapid differential against an independent ntor (math/big X25519 ladder, hand-written HMAC transcript and HKDF) + metamorphic transcript-binding relation; concurrent calls compared with sequential results (-race in thorough)",
     "engine": "rapid (harness in common/ntor, exported API only) + verifkit/refntor, refx",
     "level_text": ("Exploration. For generated identity/ephemeral scalars (incl. all-zero, all-ff, single-bit), key pairs from NewKeypair with "
                    "and without Elligator, node IDs and peer keys that are honest, arbitrary, or low-order in canonical and non-canonical "
